@@ -228,6 +228,8 @@ def ev(e, env: Dict[str, Any]):
             import math
             if b == 0:
                 return None
+            if env.get("__MOD_FLOORED__"):
+                return a % b  # Polars' SQL: MOD is the floored modulo already
             if isinstance(a, int) and isinstance(b, int):
                 r = abs(a) % abs(b)
                 return r if a >= 0 else -r
